@@ -5,7 +5,15 @@ import vlib
 
 ASSUME = ['the renderer (abstract kernel state -> file text, in stats_driver.cpp) is trusted; concrete values are small x U with U in {1, 4096, 2^31+7, 2^40}, "max" literals and 0',
           'ratio-valued statistics (memory_protection, average_usage, effective_usage) are compared only in U=1 executions, within the truncation tolerance stated in CgroupStats.tla',
-          'files are present and well-formed here (missing / empty / vanishing files: C10); system swap totals change only between ticks']
+          'files are present and well-formed here (missing / empty / vanishing files: C10); system swap totals change only between ticks',
+          'a directory listing may fail half way (an entry vanishing between readdir and fstatat) as the last access of a tick: the next tick must list completely; other structure changes happen between ticks']
+
+
+def _cov(lines, replay):
+    n = sum(1 for l in lines if l.startswith('{"e":"ListFault"'))
+    if not replay and n == 0:
+        raise vlib.Infra('vacuity guard: no directory listing failed half way in this run')
+    return {'listings_failed_half_way': n}
 
 
 def run(pid, tier, tmp, replay):
@@ -13,4 +21,4 @@ def run(pid, tier, tmp, replay):
     vlib.trace_family_check(pid, tier, tmp, replay, variant='plain', driver='stats_driver', driver_args=[vlib.seed(), n],
                             trace_module='CgroupStats_Trace.tla', trace_cfg='CgroupStats_Trace.cfg',
                             mc_module='MC_CgroupStats.tla', mc_cfg='MC_C15_%s.cfg' % tier, assume=ASSUME,
-                            sample_re=r'\{"e":"(Q|KC|Refresh|Tree)"')
+                            sample_re=r'\{"e":"(Q|KC|Refresh|Tree)"', extra_cov=lambda lines: _cov(lines, replay))
